@@ -14,13 +14,20 @@ Qed.
 Lemma zlist_eqb_refl a : zlist_eqb a a = true.
 Proof. induction a; simpl; auto. rewrite Z.eqb_refl. auto. Qed.
 
+Lemma exists_lazy_eq {A} (f : A -> bool) l : exists_lazy f l = existsb f l.
+Proof. induction l; simpl; auto. destruct (f a); auto. Qed.
+Lemma forall_lazy_eq {A} (f : A -> bool) l : forall_lazy f l = forallb f l.
+Proof. induction l; simpl; auto. destruct (f a); auto. Qed.
+Lemma andl_eq (a b : bool) : (a &&& b) = a && b.
+Proof. destruct a; reflexivity. Qed.
+
 Lemma search_leaf leaf plan pe :
   search leaf plan pe = true -> exists pe', leaf pe' = true.
 Proof.
   revert pe; induction plan as [|[[v dom] cs] r IH]; simpl; intros pe H.
   - eauto.
-  - apply existsb_exists in H. destruct H as [z [_ H]].
-    apply andb_true_iff in H. destruct H as [_ H]. eauto.
+  - rewrite exists_lazy_eq in H. apply existsb_exists in H. destruct H as [z [_ H]].
+    rewrite andl_eq in H. apply andb_true_iff in H. destruct H as [_ H]. eauto.
 Qed.
 
 (* soundness: an accepted answer is the reading of a genuine model *)
@@ -28,11 +35,12 @@ Theorem sat_abs_sound st kids order ans :
   sat_abs st kids order ans = true ->
   exists en, model_of no_graph en st /\ reads st en kids = ans.
 Proof.
-  unfold sat_abs, sat_abs_plan. intros H.
+  unfold sat_abs, sat_abs_plan. intros H. rewrite !andl_eq in H.
   apply andb_true_iff in H. destruct H as [_ H].
   apply search_leaf in H. destruct H as [pe H].
-  unfold leaf_ok in H.
+  unfold leaf_ok in H. rewrite !andl_eq in H.
   apply andb_true_iff in H. destruct H as [H H3].
   apply andb_true_iff in H. destruct H as [H1 H2].
+  rewrite forall_lazy_eq in H2.
   exists (env_of pe). split; [split; assumption|]. apply zlist_eqb_eq; assumption.
 Qed.
